@@ -249,7 +249,9 @@ def main(tier):
         # ---------- (B4) a host routine that evaluates a text through RunExpr again and again and tolerates its failures: work done by a
         #      failing evaluation is work — the budget stops the routine after about budget / cost evaluations, failing or not
         RX = [("1000d6 + nosuch()", 1000), ("1000d6 + 1", 1000), ("i=0; while i<500 { i=i+1 }; 1/0", 1500), ("[1,2,3][9] + 2000d2", 0), ("500d4; (", 0),
-              ("func f(){ 800d3 + [][0] }; f()", 800), ("&c = 700d5 + 'a'*'b'; c", 700)]
+              ("func f(){ 800d3 + [][0] }; f()", 800), ("&c = 700d5 + 'a'*'b'; c", 700),
+              # … nor is a text that does not even parse a refund of what the routine has spent so far
+              ("1000d6\n---\n(", 1000), ("1000d6 + 1\n---\n1 +", 1000), ("800d2\n---\n'abc\n---\n", 800), ("(\n---\n900d3", 900)]
         rl = [f"rxloop L30000 {r.getrandbits(128):032x} {hx(src)} 400" for src, cost in RX]
         for (src, cost), (ln, g) in zip(RX, run.go_only("rxloop", rl, go_timeout=300, line_timeout=60)):
             kv = dict(x.split("=", 1) for x in g.split() if "=" in x)
